@@ -166,6 +166,7 @@ let rec pipe_of_sx (x : sx) : pipe =
   | L [A "never"] -> PNever
   | L [A "error"; e] -> PError (atom_nat e)
   | L [A "repeat"; v] -> PRepeat (val_of_sx v)
+  | L [A "from_iter_repeat"; v] -> PRepeat (val_of_sx v)   (* from_iter (iter::repeat v): the same endless stream *)
   | L [A "defer"; p] -> PDefer (pipe_of_sx p)
   | L [A "start"; c] -> PStart (atom_nat c)
   | L [A "result_ok"; v] -> PFromResult (Inl (val_of_sx v))
